@@ -551,9 +551,43 @@ def extract_poolapi(ctx, sliced, fired):
     fired['poolapi'] = rw.fired
 
 
+def extract_empty_block(ctx, sliced, fired):
+    """MemoryPool::getEmptyBlock: slab refill with roll-back when a back reference cannot be obtained"""
+    rw = Rewriter('getEmptyBlock')
+    s = slice_block(FE, r'Block \*MemoryPool::getEmptyBlock\(size_t size\)')
+    sliced.append('%s:%d MemoryPool::getEmptyBlock' % (FE, s.line))
+    t = rw.sub(s.text, r'Block \*MemoryPool::getEmptyBlock\(size_t size\)', 'Block *MemoryPool_getEmptyBlock(struct MemoryPool* self, size_t size)', 1, 1, name='sig')
+    t = rw.sub(t, r'TLSData\* tls = getTLS\(\s*false\s*\);', 'TLSData* tls = STUB_getTLS(self);', 1, 1, name='callee stub')
+    t = rw.sub(t, r'FreeBlockPool::ResOfGet resOfGet = tls\?\s*tls->freeSlabBlocks\.getBlock\(\) : FreeBlockPool::ResOfGet\(nullptr, false\);', 'struct ResOfGet resOfGet = tls ? STUB_freeSlabBlocks_getBlock(tls) : RESOFGET(NULL, false);', 1, 1, name='callee stub')
+    t = rw.sub(t, r'Backend::numOfSlabAllocOnMiss', 'numOfSlabAllocOnMiss', 2, name='class constant')
+    t = rw.sub(t, r'static_cast<Block\*>\(extMemPool\.backend\.getSlabBlock\(num\)\)', 'STUB_getSlabBlock(self, num)', 1, 1, name='callee (backend, job oom.genericGetBlock)')
+    t = rw.sub(t, r'extMemPool\.userPool\(\)', 'STUB_userPool(self)', 2, name='callee stub')
+    t = rw.sub(t, r'BackRefIdx::newBackRef\(\s*false\s*\)', 'STUB_newBackRef()', 0, None, name='callee stub (may fail: returns the invalid index)')
+    t = rw.sub(t, r'backRefIdx\[(\w+)\]\.isInvalid\(\)', r'BRI_isInvalid(backRefIdx[\1])', 0, None, name='method')
+    t = rw.sub(t, r'(?<![\w.>])removeBackRef\(', 'STUB_removeBackRef(', 0, None, name='callee stub')
+    t = rw.sub(t, r'extMemPool\.backend\.putSlabBlock\(', 'STUB_putSlabBlock(self, ', 0, None, name='callee stub')
+    t = rw.sub(t, r'new \(&b->backRefIdx\) BackRefIdx\(\);', 'b->backRefIdx = BRI_invalid();', 0, None, name='placement-new of the invalid index')
+    t = rw.sub(t, r'(?<![\w.>])setBackRef\(', 'STUB_setBackRef(', 0, None, name='callee stub')
+    t = rw.sub(t, r'b->tlsPtr\.store\(tls, std::memory_order_relaxed\);', 'b->tlsPtr = tls;', 0, None, name='atomic-store (block not yet shared)')
+    t = rw.sub(t, r'b->poolPtr = this;', 'b->poolPtr = self;', 0, None, name='this')
+    t = rw.sub(t, r'tls->freeSlabBlocks\.returnBlock\(b\);', 'STUB_returnBlock(tls, b);', 0, None, name='callee stub')
+    t = rw.sub(t, r'result->initEmptyBlock\(tls, size\);', 'STUB_initEmptyBlock(result, tls, size);', 0, None, name='callee stub')
+    t = rw.sub(t, r'STAT_increment\([^;]*\);', 'RG_NOP();', 0, None, name='statistics -> RG_NOP')
+    t = rw.sub(t, r', ASSERT_TEXT\)', ', "assertion")', 0, None, name='assert text')
+    t = rw.asserts(t, 0, macro='MALLOC_ASSERT')
+    t = rw.std(t)
+    m = re.search(r'numOfSlabAllocOnMiss = (\d+)', load('src/tbbmalloc/backend.h'))
+    if not m:
+        raise ExtractionBreak('backend.h: numOfSlabAllocOnMiss not found')
+    common.write(ctx, 'empty_block.inc', t + '\n')
+    ctx.num_on_miss = int(m.group(1))
+    fired['getEmptyBlock'] = rw.fired
+
+
 def build(ctx):
     sliced, fired = extract(ctx)
     extract_remap(ctx, sliced, fired)
+    extract_empty_block(ctx, sliced, fired)
     extract_freeblock(ctx, sliced, fired)
     extract_getfrombin(ctx, sliced, fired)
     extract_split(ctx, sliced, fired)
@@ -581,6 +615,7 @@ def build(ctx):
         Job('posix_memalign.args', C, 'h_memalign', route='LF', defines=['API'], target='scalable_posix_memalign + isPowerOfTwoAtLeast', source=FE),
         Job('aligned_malloc.args', C, 'h_aligned_malloc', route='LF', defines=['API'], target='scalable_aligned_malloc + isPowerOfTwo', source=FE),
         Job('aligned_realloc.args', C, 'h_aligned_realloc', route='LF', defines=['API'], target='scalable_aligned_realloc', source=FE),
+        Job('slab.getEmptyBlock', C, 'h_empty_block', route='LW', defines=['EMPTYBLOCK', 'numOfSlabAllocOnMiss=%d' % ctx.num_on_miss], unwind=ctx.num_on_miss + 2, target='MemoryPool::getEmptyBlock (slab refill; roll-back when a back reference cannot be obtained)', source=FE),
         Job('remap.size_guard', C, 'h_remap', route='LF', defines=['REMAP'], target='Backend::remap: size arithmetic + wrap-around guard (with the real LargeObjectCache::alignToBin, alignUp, log2)', source=BE, timeout=600),
         Job('realloc.args', C, 'h_realloc', route='LF', defines=['API'], target='scalable_realloc', source=FE),
         Job('bin.getFromBin', C, 'h_getfrombin', route='LC', loops=True, nloops=1, defines=['GETBIN'], timeout=300, inputs=['IN_size', 'IN_addr', 'IN_S', 'IN_needAligned', 'IN_alignedBin'],
